@@ -163,6 +163,30 @@ def step (st : St) (ts : List String) : St × String :=
       | (st', some msg) => (st', msg)
     | some m, none, _ => (st, "reject " ++ site m "Clone" ++ " bad-output " ++ " ".intercalate out)
     | _, _, _ => (st, "reject bad-op")
+  | ["opprivate", a, b, v] => match st.get a, st.get b, v.toNat?, out with
+    | some _, some q, some v, [priv, card, r] =>
+      -- the wrapper hands its inner provider a PRIVATE snapshot of a wrapper operand: adding v (new) to the operand afterwards
+      -- must not show up in it
+      if priv != "true" && !has q.ideal v then
+        (st, s!"reject threadSafeDuplex:operand-snapshot-aliased after {a}.Op({b}), {b}.Add({v}) shows up in the operand object {a}'s inner provider was given: it is {b}'s live bitmap, not a snapshot")
+      else match judgeObs st b q (ins v q.ideal) (site q "Add") card r with
+        | (st', none) => (st', "ok")
+        | (st', some msg) => (st', msg)
+    | some _, some _, some _, _ => (st, "reject threadSafeDuplex:operand-snapshot-aliased bad-output " ++ " ".intercalate out)
+    | _, _, _, _ => (st, "reject bad-op")
+  | ["fillrace", o, a, b, _, _, _] => match parseOp o, st.get a, st.get b, out with
+    | some _, some _, some _, "panic" :: rest =>
+      ({ st with dead := true }, s!"reject threadSafeDuplex:operand-read-after-unlock {a}.{o}({b}) panicked while {b} (empty at the start) was being filled: " ++ " ".intercalate rest)
+    | some _, some p, some q, "ok" :: bad :: c1 :: r1 :: "|" :: c2 :: r2 :: rest =>
+      if bad != "bad=0" then
+        (st, s!"reject threadSafeDuplex:operand-read-after-unlock {a}.{o}({b}) with {b} empty at the start and filled meanwhile: a result is not {o}(a0, prefix of what was added): {bad} " ++ " ".intercalate rest)
+      else match judgeObs st a p p.ideal "threadSafeDuplex:concurrent-use" c1 r1 with
+        | (st1, some msg) => (st1, msg)
+        | (st1, none) => match judgeObs st1 b q [] "threadSafeDuplex:concurrent-use" c2 r2 with
+          | (st2, some msg) => (st2, msg)
+          | (st2, none) => (st2, "ok")
+    | some _, some _, some _, _ => (st, "reject threadSafeDuplex:concurrent-use bad-output " ++ " ".intercalate out)
+    | _, _, _, _ => (st, "reject bad-op")
   | ["eachcall", x, k, m, y] =>
     let meth : Option NestedM := match m with
       | "remove" => some .remove | "cadd" => some .cadd | "add" => some .add | "contains" => some .contains | _ => none
